@@ -81,9 +81,10 @@ def gen_world(rng: random.Random):
         w.update({"ndat": rng.randint(600, 1400), "nch": rng.randint(3, 4), "nmodes": rng.randint(1, 3)})
         if variant == "SSI":
             w.update({"br": rng.randint(4, 6), "ordmax": rng.choice([6, 8, 10, 12]), "step": 1,
-                      "permissive": rng.random() < 0.7})
+                      "permissive": rng.random() < 0.7, "ordmin": rng.choice([0, 0, 0, 2, 3])})
         elif variant == "pLSCF":
-            w.update({"ordmax": rng.randint(4, 8), "nxseg": rng.choice([64, 128]), "permissive": rng.random() < 0.8})
+            w.update({"ordmax": rng.randint(4, 8), "nxseg": rng.choice([64, 128]), "permissive": rng.random() < 0.8,
+                      "ordmin": rng.choice([0, 0, 0, 1, 2])})
         else:
             nx = rng.choice([128, 256]) if cls in ("EFDD", "FSDD") else rng.choice([64, 128, 256])
             w.update({"nxseg": nx, "method_SD": rng.choice(["per", "cor"])})
@@ -103,6 +104,7 @@ def gen_world(rng: random.Random):
                       "nmodes": rng.randint(1, 4), "p_nan": rng.choice([0.0, 0.2, 0.5, 0.8]),
                       "dups": rng.random() < 0.4, "empty_cols": rng.random() < 0.3,
                       "cov": variant == "SSI" and rng.random() < 0.25})
+            w["ordmin"] = rng.choice([0, 0, 0, 1, 2, w["ncols"] // 2])
     r = rng.random()
     if r < 0.5:
         w["freqlim"] = None
@@ -189,12 +191,12 @@ def build(w):
         data = datagen.resonator_record(w["seed"], w["ndat"], w["nch"], fs, nmodes=w["nmodes"])
         ss = SingleSetup(data, fs=fs)
         if w["variant"] == "SSI":
-            kw = dict(br=w["br"], ordmax=w["ordmax"], step=w["step"])
+            kw = dict(br=w["br"], ordmax=w["ordmax"], step=w["step"], ordmin=w.get("ordmin", 0))
             if w["permissive"]:
                 kw["hc"] = dict(PERMISSIVE)
             alg = cls(name="alg", **kw)
         elif w["variant"] == "pLSCF":
-            kw = dict(ordmax=w["ordmax"], nxseg=w["nxseg"])
+            kw = dict(ordmax=w["ordmax"], nxseg=w["nxseg"], ordmin=w.get("ordmin", 0))
             if w["permissive"]:
                 kw["hc"] = {k: v for k, v in PERMISSIVE.items() if k != "cov_max"}
             alg = cls(name="alg", **kw)
@@ -214,14 +216,14 @@ def build(w):
     Fn, Xi, Phi, Lab, cov = gen_table(w)
     nc = Fn.shape[1]
     if w["variant"] == "SSI":
-        alg = cls(name="alg", br=4, ordmax=nc - 1, ordmin=0, step=1)
+        alg = cls(name="alg", br=4, ordmax=nc - 1, ordmin=min(w.get("ordmin", 0), nc - 1), step=1)
         ss.add_algorithms(alg)
         kw = {}
         if cov is not None:
             kw = dict(Fn_poles_cov=cov[0], Xi_poles_cov=cov[1], Phi_poles_cov=cov[2])
         alg._set_result(SSIResult(Fn_poles=Fn, Xi_poles=Xi, Phi_poles=Phi, Lab=Lab, **kw))
     else:
-        alg = cls(name="alg", ordmax=nc, ordmin=0, nxseg=64)
+        alg = cls(name="alg", ordmax=nc, ordmin=min(w.get("ordmin", 0), nc - 1), nxseg=64)
         ss.add_algorithms(alg)
         alg._set_result(pLSCFResult(Fn_poles=Fn, Xi_poles=Xi, Phi_poles=Phi, Lab=Lab))
     return ss, alg
@@ -497,6 +499,9 @@ class Driver:
             return e
         r = rng.random()
         if r < 0.3:
+            if self.phys_shift and rng.random() < 0.5:
+                # a non-printable key used while SHIFT is down: the Tk backend names it "shift+<key>"
+                return {"ev": rng.choice(["key_press", "key_release"]), "key": rng.choice(["shift+left", "shift+f1", "shift+tab", "shift+up"])}
             return {"ev": rng.choice(["key_press", "key_release"]), "key": rng.choice(["a", "control", "alt", "escape", "s"])}
         if r < 0.45:
             return {"ev": "resize", "w": round(rng.uniform(6, 14), 2), "h": round(rng.uniform(3.5, 8), 2)}
@@ -979,6 +984,10 @@ def shrink_candidates(case):
                 w2 = copy.deepcopy(w)
                 w2[key] = small
                 yield {"world": w2, "ops": ops}
+        if w.get("ordmin"):
+            w2 = copy.deepcopy(w)
+            w2["ordmin"] = 0
+            yield {"world": w2, "ops": ops}
         for key in ("dups", "empty_cols", "cov"):
             if w.get(key):
                 w2 = copy.deepcopy(w)
